@@ -15,7 +15,7 @@ EXPLANATION = (
     "of External::node in the compiler handles every node kind the resolver can produce. The equality of resolver and "
     "evaluator bindings for every program follows from these plus 'functions are top-level and closed', which is an "
     "argument, not a check.")
-EXPLANATION += ' Further clauses: (R6) every declaration is pre-declared (accessor completeness); (R7) JOIN-AGREE (shared C10.R5); (R8) NAMING (shared C09.R2); (R9) FRESH-SCOPE - Env::open pushes a newly created empty map, Env::close drops the popped one, nothing else touches the stack. (R10) NAMES-STRUCTURAL - typed accessors never compare token texts; the scope key keeps identifier and qualifier as two components stored unchanged.'
+EXPLANATION += ' Further clauses: (R6) every declaration is pre-declared (accessor completeness); (R7) JOIN-AGREE (shared C10.R5); (R8) NAMING (shared C09.R2); (R9) FRESH-SCOPE - Env::open pushes a newly created empty map, Env::close drops the popped one, nothing else touches the stack. (R10) NAMES-STRUCTURAL - typed accessors never compare token texts; the scope key keeps identifier and qualifier as two components stored unchanged. R4 also requires the module scope to be opened above the built-ins; (R11) GRAMMAR-AGREE (shared C02.R14).'
 TECHNIQUE = "static analysis: MIR must-pass-through / dominance path rules + HIR kind-set agreement"
 
 
@@ -247,6 +247,13 @@ def r4_order(c, facts):
             c.ok(R, {'before': a, 'after': b})
         else:
             c.bad(R, 'order:%s<%s' % (a, b), 'resolve(): %s no longer precedes %s (precedence between built-ins, imports and declarations changes)' % (a, b))
+    # built-ins come last: a declaration named like one shadows it, so they live in a scope below the module's
+    if 'stdlib::import' in where and 'resolve::declare_variable' in where:
+        opens = {b for b, _ in P.call_blocks(fn, 'env::Env::open')}
+        if where['resolve::declare_variable'] in fn.reachable_from(where['stdlib::import'], avoid=opens):
+            c.bad(R, 'builtins-share-module-scope', 'resolve() declares the built-ins in the scope of the module\'s own declarations (no Env::open in between): `let concat = ..` is a duplicate instead of shadowing the built-in')
+        else:
+            c.ok(R, {'resolve': 'the module scope is opened above the built-ins'})
     dv = c.anchor(R, 'oal_compiler::resolve::declare_variable')
     if branches_on_result(dv, 'env::Env::declare') and has_kind(dv, 'InvalidIdentifier'):
         c.ok(R, {'declare_variable': 'Err(InvalidIdentifier) depending on the previous definition returned by Env::declare'})
@@ -507,6 +514,12 @@ def r10_names_structural(c, facts):
 def run(c, facts):
     import c10
     import c09
+    import grammar
+    c.run(lambda c: grammar.agree(c, facts, 'C08.R11', floor=12))
+    import inferrules as _I
+    R12 = c.rule('C08.R12', 'ARITY: an application binds every parameter of the callee: a call with too few arguments is rejected, or the unbound parameter would be looked up in the caller (shared with C07.R4, C07.R1)')
+    c.run(lambda c: _I.arity(c, facts, R12))
+    c.run(lambda c: _I.tag_rec(c, facts, R12))
     c.run(r10_names_structural, facts)
     c.run(r9_fresh_scope, facts)
     R8 = c.rule('C08.R8', 'NAMING: a qualified identifier evaluates to its own module\'s value: implicit names are injective over (module, node, instantiation) (shared with C09.R2)')
